@@ -496,8 +496,23 @@ func checkGuardOrder(c *Ctx, r *Report, reach map[*ssa.Function]bool) {
 }
 
 // E-CALLBACKNIL: a result-point callback taken from the hints is tested before it is invoked
+// checkCallbackNilIn is E-CALLBACKNIL over the functions of the packages under one directory of the module.
+func checkCallbackNilIn(c *Ctx, r *Report, dir string, min int) {
+	reach := map[*ssa.Function]bool{}
+	for f := range c.allFuncs {
+		if f.Pkg != nil && strings.HasPrefix(f.Pkg.Pkg.Path(), modPath+"/"+dir) {
+			reach[f] = true
+		}
+	}
+	checkCallbackNilMin(c, r, reach, min)
+}
+
 func checkCallbackNil(c *Ctx, r *Report, reach map[*ssa.Function]bool) {
-	r.Rule("E-CALLBACKNIL", "every invocation of a value of type gozxing.ResultPointCallback on a decode path is dominated by a test that the value is not nil: the callback arrives through the hints map (a well-typed hint value may be a nil function, which a type assertion accepts) or through a field that is nil when no hint was given; sibling readers agree on this test - one obligation per invocation", 5)
+	checkCallbackNilMin(c, r, reach, 5)
+}
+
+func checkCallbackNilMin(c *Ctx, r *Report, reach map[*ssa.Function]bool, min int) {
+	r.Rule("E-CALLBACKNIL", "every invocation of a value of type gozxing.ResultPointCallback on a decode path is dominated by a test that the value is not nil: the callback arrives through the hints map (a well-typed hint value may be a nil function, which a type assertion accepts) or through a field that is nil when no hint was given; sibling readers agree on this test - one obligation per invocation", min)
 	var fns []*ssa.Function
 	for f := range reach {
 		if f.Blocks != nil && isRepoPkgFn(f) {
